@@ -175,16 +175,19 @@ def run_e2(res, tier):
 
 def run(tier):
     res = core.Result("C10", tier)
-    out = e4.run_suite("builders", tier)
-    n = out["executor_cases"] + out["instantiate_cases"] + out["admin_cases"] + out["query_cases"]
-    res.add(states=out["builder_states"], transitions=n, traces=n, evaluations=n)
-    for v in out["violations"]:
-        res.violation({"kind": "builders", "what": "%s: %s" % (v.get("what"), json.dumps({k: x for k, x in v.items() if k != "what"})[:500]), "case": v.get("case"), "cls": v.get("what")})
-    if out["n_violations"] > len(out["violations"]):
-        res.parts["builder_violations_total"] = out["n_violations"]
-    res.sample(out["sample"])
-    res.parts.update({"builder_depth": out["depth"], "executor_cases": out["executor_cases"], "instantiate_cases": out["instantiate_cases"],
-                      "admin_cases": out["admin_cases"], "query_cases": out["query_cases"]})
+    out = e4.run_suite_into(res, "builders", tier)
+    if out is not None:
+        n = out["executor_cases"] + out["instantiate_cases"] + out["admin_cases"] + out["query_cases"]
+        res.add(states=out["builder_states"], transitions=n, traces=n, evaluations=n)
+        for v in out["violations"]:
+            res.violation({"kind": "builders", "what": "%s: %s" % (v.get("what"), json.dumps({k: x for k, x in v.items() if k != "what"})[:500]), "case": v.get("case"), "cls": v.get("what")})
+        if out["n_violations"] > len(out["violations"]):
+            res.parts["builder_violations_total"] = out["n_violations"]
+        res.sample(out["sample"])
+        res.parts.update({"builder_depth": out["depth"], "executor_cases": out["executor_cases"], "instantiate_cases": out["instantiate_cases"],
+                          "admin_cases": out["admin_cases"], "query_cases": out["query_cases"]})
+    else:
+        out = e4.stub()
     run_e2(res, tier)
     res.cov["rule"] = ("E4: breadth-first over builder call sequences to depth %d: executor (2 addresses x all with_funds sequences over 3 fund values x 4 methods "
                        "incl. a dyn-interface handle x owned/borrowed), instantiate builder (all sequences over 6 setters incl. repeats x 2 argument tuples x "
